@@ -1,0 +1,155 @@
+//go:build verif
+
+// Package verifhook: event log and gates for the verification harness (build tag verif).
+package verifhook
+
+import (
+	"runtime"
+	"strconv"
+	"strings"
+	"sync"
+	"time"
+)
+
+// Event is one logged yield point.
+type Event struct {
+	Seq   uint64
+	Gid   uint64
+	Label string
+	Args  []uint64
+}
+
+var (
+	mu     sync.Mutex
+	seq    uint64
+	events []Event
+	gates  = map[string]chan struct{}{} // label -> channel closed on release
+	held   = map[string]int{}           // label -> number of goroutines currently parked
+	cond   = sync.NewCond(&mu)
+	ids    = map[interface{}]uint64{}
+)
+
+func gid() uint64 {
+	var buf [64]byte
+	n := runtime.Stack(buf[:], false)
+	f := strings.Fields(string(buf[:n]))
+	if len(f) >= 2 {
+		v, _ := strconv.ParseUint(f[1], 10, 64)
+		return v
+	}
+	return 0
+}
+
+// ID gives a small stable number to an object (connection identity in events).
+func ID(v interface{}) uint64 {
+	if v == nil {
+		return 0
+	}
+	mu.Lock()
+	defer mu.Unlock()
+	if id, ok := ids[v]; ok {
+		return id
+	}
+	id := uint64(len(ids) + 1)
+	ids[v] = id
+	return id
+}
+
+// Point logs the event and parks the caller while the label's gate is held.
+func Point(label string, args ...uint64) {
+	g0 := gid()
+	mu.Lock()
+	seq++
+	events = append(events, Event{seq, g0, label, append([]uint64(nil), args...)})
+	g := gates[label]
+	if g != nil {
+		held[label]++
+	}
+	cond.Broadcast()
+	mu.Unlock()
+	if g != nil {
+		<-g
+	}
+}
+
+// Hold makes every later Point(label) park until Release(label).
+func Hold(label string) {
+	mu.Lock()
+	if gates[label] == nil {
+		gates[label] = make(chan struct{})
+	}
+	mu.Unlock()
+}
+
+// Release lets parked goroutines go and removes the gate.
+func Release(label string) {
+	mu.Lock()
+	if g := gates[label]; g != nil {
+		close(g)
+		delete(gates, label)
+		held[label] = 0
+	}
+	mu.Unlock()
+}
+
+func waitUntil(d time.Duration, ok func() bool) bool {
+	deadline := time.Now().Add(d)
+	done := make(chan struct{})
+	go func() {
+		select {
+		case <-done:
+		case <-time.After(d):
+			mu.Lock()
+			cond.Broadcast()
+			mu.Unlock()
+		}
+	}()
+	defer close(done)
+	mu.Lock()
+	defer mu.Unlock()
+	for !ok() {
+		if time.Now().After(deadline) {
+			return false
+		}
+		cond.Wait()
+	}
+	return true
+}
+
+// WaitParked blocks until n goroutines are parked at label (false on timeout).
+func WaitParked(label string, n int, d time.Duration) bool {
+	return waitUntil(d, func() bool { return held[label] >= n })
+}
+
+// WaitEvent blocks until an event with the label has been logged after sequence number `after`.
+func WaitEvent(label string, after uint64, d time.Duration) (Event, bool) {
+	var found Event
+	ok := waitUntil(d, func() bool {
+		for _, e := range events {
+			if e.Seq > after && e.Label == label {
+				found = e
+				return true
+			}
+		}
+		return false
+	})
+	return found, ok
+}
+
+// Seq is the sequence number of the last event.
+func Seq() uint64 { mu.Lock(); defer mu.Unlock(); return seq }
+
+// Dump returns a copy of the log.
+func Dump() []Event { mu.Lock(); defer mu.Unlock(); return append([]Event(nil), events...) }
+
+// Reset clears the log and releases all gates.
+func Reset() {
+	mu.Lock()
+	for l, g := range gates {
+		close(g)
+		delete(gates, l)
+	}
+	held = map[string]int{}
+	events = nil
+	mu.Unlock()
+}
